@@ -298,6 +298,12 @@ def mon_c10(hs, prev, op, ok, trace, cur, known):
         hs['stsei_hub'] = t[2]
     if t[0] == 'inst_bsei' and ok:
         hs['bsei_hub'] = t[2]
+    for nm_, key_ in (('inst_hub', 'hub'), ('inst_reward', 'reward'), ('inst_disp', 'disp'), ('inst_reg', 'reg')):
+        if t[0] == nm_:
+            if ok:
+                hs.setdefault('nominee', {})[key_] = t[1]
+            else:
+                hs.setdefault('nominee', {}).pop(key_, None)
     if prev is None:
         return None
     # token address immutability across every non-instantiate operation
@@ -320,6 +326,15 @@ def mon_c10(hs, prev, op, ok, trace, cur, known):
         if t[2] == 'accept' and _cfg(cur, ck, 0) != _cfg(prev, nk, 0):
             return ('violation', '%s: AcceptOwnership accepted but the owner is %s, nominee was %s'
                     % (t[0], _cfg(cur, ck, 0), _cfg(prev, nk, 0)))
+    # ghost: the address most recently nominated (by an accepted SetOwner; the instantiator at
+    # instantiation). Only that address may accept - whatever the contract's own slot says by now
+    # (an outgoing owner must not be able to take the contract back after the hand-over)
+    if t[0] in own and len(t) > 2 and t[2] == 'accept':
+        g = hs.get('nominee', {}).get(t[0])
+        if g is not None and t[1] != g:
+            return ('violation', '%s: AcceptOwnership accepted from %s; the last address nominated was %s' % (t[0], t[1], g))
+    if t[0] in own and len(t) > 3 and t[2] == 'setowner':
+        hs.setdefault('nominee', {})[t[0]] = t[3]
     exp = None   # set of allowed senders
     sender = None
     if t[0] == 'bond':
@@ -577,6 +592,14 @@ def mon_c18(hs, prev, op, ok, trace, cur, known):
         want = 'm wasm %s %s check_slashing -' % (tok, hs.get(tok + '_hub', 'hub'))
         if want not in trace:
             return ('violation', '%s %s did not make the hub refresh its exchange rates (no CheckSlashing in the transaction)' % (tok, verb))
+        # ... and the refresh is effective: what the hub has stored after the transaction (rates and pools) is
+        # what its State query computes from the live supplies and delegations (whatever the hub's mode)
+        import monitors2 as _M2
+        if _M2.wired(cur, hs) and _M2.recomputes(cur):
+            s_, q_ = _M2.stored(cur), _M2.qstate(cur)
+            if s_ is not None and q_ is not None and tuple(s_[:4]) != tuple(q_[:4]):
+                return ('violation', '%s %s: the hub did not refresh its exchange rates in the transaction (stored rates/pools %s, '
+                        'the State query computes %s)' % (tok, verb, list(s_[:4]), list(q_[:4])))
     return None
 
 
@@ -590,8 +613,8 @@ HISTORY_MONITORS = {
     'C05': [M2.guarded(M2.mon_c05)],
     'C06': [M2.guarded(M2.mon_c06), M2.guarded(M2.mon_c01)],
     'C07': [M2.guarded(M2.mon_c07)],
-    'C08': [M2.guarded(M2.mon_c08)],
-    'C09': [M2.guarded(M2.mon_c09), M2.guarded(M2.mon_c09_probes), M2.guarded(M2.mon_c09_withdraw)],
+    'C08': [M2.guarded(M2.mon_c08), M2.guarded(M2.mon_c09_epoch)],
+    'C09': [M2.guarded(M2.mon_c09), M2.guarded(M2.mon_c09_epoch), M2.guarded(M2.mon_c09_probes), M2.guarded(M2.mon_c09_withdraw)],
     'C13': [M2.guarded(M2.mon_c13)],
     'C14': [M2.guarded(M2.mon_c14)],
     'C15': [M2.guarded(M2.mon_c15)],
